@@ -23,6 +23,7 @@ from common import coq_list
 from harness.c17 import ensure_own_vo, guarded
 
 OWN = ['Model/SvgIO.v', 'Proofs/SvgIO.v', 'Proofs/SvgDocHist.v', 'Model/SvgIOCheck.v']
+# (the saxsave stream also uses Model/SvgTree.v, Model/SvgTreeCheck.v: part of the static build)
 SVGNS = 'http://www.w3.org/2000/svg'
 
 
@@ -323,7 +324,7 @@ def history_case(rng, scratch, ci):
     added = {}
     ops_coq = []
     nadd = 0
-    for step in range(rng.randint(1, 6)):
+    for step in range(rng.randint(1, 8)):
         cur = xel_of(doc.tree.getroot())
         allpos = list(positions(cur))
         gpos = [p for p, x in allpos if x['local'] == 'g' or p == ()]
@@ -359,7 +360,10 @@ def history_case(rng, scratch, ci):
                 new = doc.add_path(arg, at, group=elem_at(p))
                 case['ops'].append(['add_path', d, at_in, list(p), kindtag]); ops_coq.append('(OpAddPath %s %s %s)' % (cs(d), atc, pos_coq(p)))
             else:
-                names = [rng.choice(['A', 'B', 'C', 'N']) for _ in range(rng.randint(1, 3))]
+                # nested group names, up to four levels (layer / part / detail / ...)
+                pool = rng.choice([['A', 'B', 'C', 'N'], ['layer', 'part', 'detail', 'item'], ['layer', 'A', 'part', 'B']])
+                names = [rng.choice(pool) for _ in range(rng.randint(1, 4))] if rng.random() < 0.5 \
+                    else ['layer', 'part', 'detail', 'item'][:rng.randint(1, 4)]
                 new = doc.add_path(arg, at, group=list(names))
                 case['ops'].append(['add_path', d, at_in, names, kindtag]); ops_coq.append('(OpAddPathNamed %s %s %s)' % (cs(d), atc, clstr(names)))
             added[id(new)] = (new, d)
@@ -383,16 +387,46 @@ def history_case(rng, scratch, ci):
                 case['invisible_after_add'].append(step)
         else:
             at = rng.choice([None, {'id': rng.choice(['A', 'B', 'N'])}, {'id': 'G%d' % step, 'transform': 'translate(1,2)'}])
-            if rng.random() < 0.5:
+            if rng.random() < 0.35:
                 doc.add_group(at)
                 p = ()
             else:
-                p = rng.choice(gpos)
+                # add_group(parent=...) chains: prefer the deepest groups
+                deep = max(len(q) for q in gpos)
+                p = rng.choice([q for q in gpos if len(q) == deep] if rng.random() < 0.6 else gpos)
                 doc.add_group(at, parent=elem_at(p))
             case['ops'].append(['add_group', at, list(p)]); ops_coq.append('(OpAddGroup %s %s)' % (cdict(at or {}), pos_coq(p)))
         case['steps'].append([p.element.get('d', '') for p in doc.paths()])
     final = xel_of(doc.tree.getroot())
     case['final_tree'] = final
+    # paths_from_group by nested names (recursive and not) on every chain of named groups that exists
+    locn = lambda e: str(e.tag).split('}')[-1]
+    def gkids(e):
+        return [c for c in list(e) if locn(c) == 'g']
+    def below(e, recursive):
+        out = [c.get('d', '') for c in list(e) if locn(c) == 'path']
+        if recursive:
+            for c in gkids(e):
+                out += below(c, True)
+        return out
+    chains = []
+    def walk(e, names, depth):
+        seen = set()
+        for c in gkids(e):
+            nm = c.get('id')
+            if nm is None or nm in seen:
+                continue             # get_group takes the first group with that id
+            seen.add(nm)
+            chains.append((names + [nm], c, depth))
+            if depth < 4:
+                walk(c, names + [nm], depth + 1)
+    walk(doc.tree.getroot(), [], 1)
+    case['group_queries'] = []
+    for names, el, depth in chains[:12]:
+        for recursive in (True, False):
+            r = guarded(lambda: sorted(p.element.get('d', '') for p in doc.paths_from_group(list(names), recursive=recursive)))
+            case['group_queries'].append({'names': names, 'recursive': recursive, 'depth_below': group_depth(el, locn),
+                                          'want': sorted(below(el, recursive)), 'got': r.get('ok'), 'error': r.get('exc')})
     fout = os.path.join(scratch, 'h%d_out.svg' % ci)
     doc.save(fout)
     case['saved_text'] = open(fout).read()
@@ -426,6 +460,11 @@ def history_case(rng, scratch, ci):
     return case, term
 
 
+def group_depth(e, locn):
+    ks = [c for c in list(e) if locn(c) == 'g']
+    return 1 + max([group_depth(c, locn) for c in ks]) if ks else 0
+
+
 def eval_history(rep, case):
     base = {'kind': 'history', 'initial': case['initial'], 'ops': case['ops'], 'saved_text': case['saved_text'][:1500]}
     if case['stale_d']:
@@ -435,6 +474,15 @@ def eval_history(rep, case):
     if case['attr_changed']:
         rep.violation('C18: Document.add_path changes the supplied attributes: %s' % case['attr_changed'][0],
                       dict(base, changed=case['attr_changed']), key='doc-add-path-attribute-changed')
+    for q in case.get('group_queries', []):
+        if q['error'] or q['got'] != q['want']:
+            rep.violation('C18: paths_from_group(%r, recursive=%s) returns %s of the %d paths below that group '
+                          '(groups nested %d levels below it)'
+                          % (q['names'], q['recursive'], 'an error instead' if q['error'] else len(q['got']),
+                             len(q['want']), q['depth_below']),
+                          dict(base, query=q), key='doc-paths-from-group-names-%s'
+                          % ('recursive-misses-nested' if q['recursive'] else 'nonrecursive-mismatch'))
+            break
     if case['invisible_after_add']:
         rep.violation('C18: a path added with Document.add_path is not returned by that Document\'s paths() '
                       '(steps %s)' % case['invisible_after_add'],
@@ -460,6 +508,121 @@ def eval_history(rep, case):
 
 def keycount_total(kc):
     return sum(kc.values())
+
+
+def saxsave_case(rng, scratch, ci):
+    """a file with per-path and group transforms (rotations, skews, general matrices: non-symmetric)
+    -> SaxDocument -> save -> reload with SaxDocument and Document.paths()"""
+    import re, numpy as np
+    import xml.etree.ElementTree as ET
+    from svgpathtools import wsvg, SaxDocument, Document, parse_path
+    from harness import c17 as T
+    f1 = os.path.join(scratch, 's%d_in.svg' % ci)
+    f2 = os.path.join(scratch, 's%d_out.svg' % ci)
+    def nonsym_tf():
+        k = rng.choice(['rot', 'rot3', 'skewX', 'skewY', 'matrix', 'mixed', 'sym'])
+        if k == 'rot':
+            return [('rotate', T.gen_angle_rot(rng, False), None)]
+        if k == 'rot3':
+            return [('rotate', T.gen_angle_rot(rng, False), [T.dy(rng, -16, 16), T.dy(rng, -16, 16)])]
+        if k in ('skewX', 'skewY'):
+            return [(k, T.gen_angle_skew(rng, False))]
+        if k == 'matrix':
+            return [('matrix', [T.dy(rng, -4, 4), T.dy(rng, -4, 4), T.dy(rng, -4, 4), T.dy(rng, -4, 4), T.dy(rng), T.dy(rng)])]
+        if k == 'mixed':
+            return [T.gen_titem(rng, False) for _ in range(rng.randint(2, 3))]
+        return [rng.choice([('translate', [T.dy(rng), T.dy(rng)]), ('scale', [2.0, 0.5])])]
+    expect = []          # (d, segs, CTM) in document order
+    via = rng.choice(['wsvg', 'hand', 'hand'])
+    if via == 'wsvg':
+        items = []
+        for _ in range(rng.randint(1, 4)):
+            d, segs = T.gen_path_d(rng, False)
+            tf = nonsym_tf() if rng.random() < 0.8 else []
+            items.append((d, segs, tf))
+        wsvg([parse_path(d) for d, _, _ in items], filename=f1,
+             attributes=[({'transform': T.tf_text(rng, tf)} if tf else {'stroke': 'red'}) for _, _, tf in items])
+        for d, segs, tf in items:
+            expect.append((segs, T.tf_matrix(tf)))
+    else:
+        def grp(depth, M):
+            out = ''
+            for _ in range(rng.randint(1, 3)):
+                if depth < 3 and rng.random() < 0.4:
+                    tf = nonsym_tf() if rng.random() < 0.7 else []
+                    out += '<g%s>%s</g>' % (' transform="%s"' % T.tf_text(rng, tf) if tf else '', grp(depth + 1, T.tf_matrix(tf, M)))
+                else:
+                    d, segs = T.gen_path_d(rng, False)
+                    tf = nonsym_tf() if rng.random() < 0.6 else []
+                    out += '<path d="%s"%s fill="none"/>' % (d, ' transform="%s"' % T.tf_text(rng, tf) if tf else '')
+                    expect.append((segs, T.tf_matrix(tf, M)))
+            return out
+        body = grp(1, None)
+        with open(f1, 'w') as f:
+            f.write('<svg xmlns="%s" width="100" height="100">%s</svg>' % (SVGNS, body))
+    case = {'via': via, 'text': open(f1).read()[:3000], 'n': len(expect)}
+    def work():
+        s1 = SaxDocument(f1)
+        rec = [None if v['matrix'] is None else np.array(v['matrix']).tolist() for v in s1.tree]
+        s1.save(f2)
+        written = []
+        for el in ET.parse(f2).getroot():
+            if str(el.tag).split('}')[-1] != 'path':
+                continue
+            t = el.get('transform')
+            if t is None:
+                written.append(None)
+            else:
+                m = re.match(r'^\s*matrix\(([^)]*)\)\s*$', t)
+                written.append([float(x) for x in m.group(1).replace(',', ' ').split()] if m else 'unparsed:' + t)
+        s2 = SaxDocument(f2)
+        rel = [None if v['matrix'] is None else np.array(v['matrix']).tolist() for v in s2.tree]
+        docp = [T.path_segs(p) for p in Document(f2).paths()]
+        return rec, written, rel, docp, open(f2).read()[:3000]
+    r = guarded(work)
+    for f in (f1, f2):
+        if os.path.exists(f):
+            os.remove(f)
+    case['result'] = r if 'exc' in r else 'ok'
+    terms = []
+    if 'ok' in r:
+        rec, written, rel, docp, text2 = r['ok']
+        case.update(recorded=rec, written=written, reloaded=rel, saved_text=text2)
+        # property on the real code: Document.paths() of the re-saved file = the paths of the original,
+        # each mapped by the product of its ancestors' transforms and its own
+        bad = []
+        if not (len(docp) == len(rec) == len(written) == len(rel) == len(expect)):
+            bad.append('count: %d paths expected, recorded %d, written %d, reloaded %d, Document %d'
+                       % (len(expect), len(rec), len(written), len(rel), len(docp)))
+        else:
+            for i, ((segs, M), got) in enumerate(zip(expect, docp)):
+                pts = lambda sg: [q for q in sg[1:] if isinstance(q, tuple)]
+                ex = [[(M[0][0] * x + M[0][1] * y + M[0][2], M[1][0] * x + M[1][1] * y + M[1][2]) for x, y in pts(sg)]
+                      for sg in segs]
+                gt = [pts(sg) for sg in got]
+                sc = max([1.0] + [abs(v) for row in ex for q in row for v in q])
+                same = [sg[0] for sg in segs] == [sg[0] for sg in got] and all(
+                    len(a) == len(b) and all(abs(u - v) <= 1e-9 * sc for q1, q2 in zip(a, b) for u, v in zip(q1, q2))
+                    for a, b in zip(ex, gt))
+                if not same:
+                    bad.append({'index': i, 'expected_ctm': M, 'written': written[i], 'got': str(got)[:300]})
+        case['geometry_bad'] = bad
+        if len(rec) == len(written) == len(rel):
+            for a, w, b in zip(rec, written, rel):
+                if isinstance(w, str):
+                    continue
+                sc = max([1.0] + [abs(v) for m in (a, b) if m for row in m for v in row] + [abs(v) for v in (w or [])])
+                mc = lambda m: '(@None qmat)' if m is None else '(Some %s)' % T.mat_coq(m)
+                wc = '(@None (list Qc))' if w is None else '(Some %s)' % coq_list([common.qc(v) for v in w])
+                terms.append('(%s, (%s, %s, %s))' % (common.qc(1e-12 * sc), mc(a), wc, mc(b)))
+    return case, terms
+
+
+OKDEF_S = r'''
+From SVP Require Import Model.SvgTree Model.SvgTreeCheck.
+Definition casety : Type := (Qc * (option qmat * option (list Qc) * option qmat))%type.
+Definition ok (c : casety) : nat := check_sax_dom (fst c) (snd c).
+'''
 
 
 OKDEF_W = r'''
@@ -542,7 +705,11 @@ def run(rep, tier, seed, replay=None):
             prop_failed = set()
             wterms, wmeta, hterms, hmeta = [], [], [], []
             samples = []
-            plan = [('wsvg', i) for i in range(nw)] + [('style', i) for i in range(ns_)] + [('history', i) for i in range(nh)]
+            nsx = 80 if tier == 'quick' else 800
+            plan = ([('wsvg', i) for i in range(nw)] + [('style', i) for i in range(ns_)] + [('history', i) for i in range(nh)]
+                    + [('saxsave', i) for i in range(nsx)])
+            sterms, smeta = [], []
+            stats['saxsave'] = 0; stats['saxsave_matrices'] = 0
             case_seed = seed
             if replay:
                 r = json.load(open(replay))['replay']
@@ -573,6 +740,26 @@ def run(rep, tier, seed, replay=None):
                     if len(samples) < 2:
                         samples.append({'stream': stream, 'd': case['d'][:2], 'attributes': case['attributes'],
                                         'svg_attributes': case['svg_attributes']})
+                elif stream == 'saxsave':
+                    case, terms = saxsave_case(crng, scratch, i)
+                    stats['saxsave'] += 1
+                    base = {'kind': 'saxsave', 'stream_name': 'saxsave', 'case_index': i, 'case_seed': case_seed,
+                            'via': case['via'], 'input': case['text'], 'saved': case.get('saved_text')}
+                    if case['result'] != 'ok':
+                        rep.violation('C18: SaxDocument load -> save -> reload raises %s: %s'
+                                      % (case['result']['exc'], case['result']['msg'][:100]),
+                                      dict(base, error=case['result']), key='sax-save-reload-exception-%s' % case['result']['exc'])
+                    elif case['geometry_bad']:
+                        rep.violation('C18: a file saved by SaxDocument does not give back the transformed paths of the '
+                                      'file it was loaded from: %s' % str(case['geometry_bad'][0])[:300],
+                                      dict(base, bad=case['geometry_bad'], recorded=case['recorded'], written=case['written']),
+                                      key='sax-save-reload-geometry')
+                        prop_failed.add(('saxsave', i))
+                    for t in terms:
+                        sterms.append(t); smeta.append((i, case))
+                    stats['saxsave_matrices'] += len(terms)
+                    if case['n'] > 1:
+                        nontrivial += 1
                 else:
                     case, t = history_case(crng, scratch, i)
                     case['stream_name'] = 'history'; case['case_index'] = i
@@ -609,6 +796,20 @@ def run(rep, tier, seed, replay=None):
                                'd': c['d'], 'attributes': c['attributes'], 'svg_attributes': c['svg_attributes'],
                                'readers': str(c['readers'])[:2000]},
                               found_input=(c['stream_name'], c['case_index']) in prop_failed, key='tie-wsvg')
+            fails, errors = common.run_cases(tmp, '', 'casety', OKDEF_S, sterms, shard=60, prefix='cases_c18s')
+            for e in errors:
+                rep.violation('correspondence case file failed to evaluate', {'kind': 'cases', 'error': e},
+                              found_input=False, key='cases-error')
+            for idx, code in fails:
+                i, c = smeta[idx]
+                names = [n for b, n in ((1, 'the numbers generate_dom writes'), (2, 'written transform = recorded matrix (SVG 7.6)'),
+                                        (4, 'matrix after reload')) if code & b]
+                rep.violation('C18: SaxDocument.save: the model of generate_dom\'s matrix serialisation does not hold: %s' % names,
+                              {'kind': 'tie-saxsave', 'stream_name': 'saxsave', 'case_index': i, 'case_seed': case_seed,
+                               'recorded': c.get('recorded'), 'written': c.get('written'), 'reloaded': c.get('reloaded'),
+                               'saved': c.get('saved_text')},
+                              found_input=('saxsave', i) in prop_failed,
+                              key='sax-generate-dom-matrix' if code & 2 else 'tie-saxsave')
             fails, errors = common.run_cases(tmp, '', 'casety', okdef_h, hterms, shard=25, prefix='cases_c18h')
             for e in errors:
                 rep.violation('correspondence case file failed to evaluate', {'kind': 'cases', 'error': e},
@@ -623,8 +824,9 @@ def run(rep, tier, seed, replay=None):
                                'initial': c['initial'], 'ops': c['ops'], 'saved_text': c['saved_text'][:1500],
                                'steps': c['steps'], 'reload': str(c['reload'])[:1500]},
                               found_input=('history', c['case_index']) in prop_failed, key='tie-history')
-            rep.cov['evaluations'] = stats['wsvg'] * 3 + stats['style'] * 3 + stats['history'] * 4 + len(wterms) + len(hterms)
-            rep.cov['traces_validated_against_impl'] = len(hterms) + len(wterms)
+            rep.cov['evaluations'] = (stats['wsvg'] * 3 + stats['style'] * 3 + stats['history'] * 4 + stats['saxsave'] * 2
+                                      + len(wterms) + len(hterms) + len(sterms))
+            rep.cov['traces_validated_against_impl'] = len(hterms) + len(wterms) + len(sterms)
             rep.cov['distinct_nontrivial'] = nontrivial
             rep.cov['rule'] = ('wsvg stream: 1-5 random paths (Line/Quadratic/Cubic/Arc, 1-3 subpaths), attribute dicts from a pool of '
                                'presentation attributes with values containing spaces, quotes, markup characters and non-ASCII, '
